@@ -27,7 +27,8 @@ def run(ctx, res):
     nd = n * 7 // 10
     # six short directed histories first: gwcheck re-evaluates the first six sessions inside Coq (vm_compute), which is slow
     cases = scenarios.directed_cases(ctx, "c10x", 6, scenarios.ota_history, VERSIONS, length=(10, 16))
-    cases += scenarios.directed_cases(ctx, "c10s", nd - 6, scenarios.ota_history, VERSIONS)
+    cases += scenarios.corpus_cases(ID)
+    cases += scenarios.directed_cases(ctx, "c10s", nd - len(cases), scenarios.ota_history, VERSIONS)
     cases += gwcheck.gen_cases(ctx, "c10g", n - nd, length=(20, 60))
     recs = gwcheck.run_cases(ctx, res, cases, ["c10"], SCOPE, "c10")
     keys = {"session:all-blocks-fetched": "full_session_all_blocks", "update:restart-fetching": "restart_while_fetching",
